@@ -309,7 +309,7 @@ def run_obligation(ctx, unit, ob, cfg, tier, canary=False, want_trace=False, cov
     tag = ob['id'] + ('.canary' if canary else '') + ('.cover' if cover else '') + ('.search' if search else '')
     spec = os.path.join(ROOT, unit['spec'])
     harness = ob['harness']
-    budget = ob.get('timeout', 120) * (5 if tier == 'thorough' else 1)
+    budget = ob.get('timeout', 360) * (5 if tier == 'thorough' else 1)  # a guard against hangs only: generous, so that a loaded machine does not turn a proof into exit 2
     t0 = time.time()
     a = os.path.join(d, tag + '.a.gb')
     defs = ['-DVERIF_CBMC=1', '-DCFG_' + cfg + '=1'] + ctx.configs[cfg] + ['-D' + x for x in ob.get('defines', ())]
